@@ -25,4 +25,4 @@ def probe_f14(run, har):
 
 def main(tier, seed, replay=None):
     return sched_check(PROP, THEOREMS, tier, seed, [monitor_c18], extra_modules=["Model.All", "Proofs.SchedSpec", "Proofs.SchedInv", "Proofs.SchedLive", "Proofs.SchedRunThms"],
-                       replay=replay, probes=probe_f14)
+                       replay=replay, scen_gen=gen_sched_or_regen, probes=probe_f14)
